@@ -192,9 +192,10 @@ PROPS = {
     "C10": {
         "rules": [L.r_reserve_only, L.r_fresh, L.r_seed,
                   todo({"reserve_items", "reserve_regions", "merge_regions", "reserve", "with_capacity"}),
-                  CD.r_tags, CD.r_bitmap, HF.r_code_source, CD.r_stats, c06_peel, HF.r_stats_and_arms],
+                  CD.r_tags, CD.r_bitmap, HF.r_code_source, CD.r_stats, c06_peel, HF.r_stats_and_arms, L.r_merge_sources_may_be_empty],
         "explanation": "Reserve paths may only read/measure/reserve; merged regions are built from empty-sized constructors and seeded like default().",
         "decided": ["R-RESERVE-ONLY", "R-FRESH", "R-SEED", "R-TODO", "for the dictionary-coded region, the merged codec's reader and writer tables agree (R-TAGS/R-BITMAP)",
+            "R-FRESH (empty sources): no merge / reserve body looks a source up at `len - k` without a test that it is non-empty (sources may be fresh or cleared regions)",
             "R-HUFF-ARMS: every push form of the Huffman container, in every arm (raw / encoded source into raw / encoded target), counts each stored symbol: the code of the next merge generation is built from these counts alone, so an uncounted symbol has no code there and pushing it panics",
             "R-PEEL: in the encoded state a merged Huffman region is in from its first push, the partial last byte is popped, re-presented and re-emitted together with the new symbols on every path (an early return between the pop and the re-emit loses the tail of the previous item)",
             "R-STATS: every input a merged codec accepts enters the statistics the next merge generation is built from (a dictionary hit that is not recorded lets a successor region assign that leading byte as a tag and refuse inputs the default region accepts)"],
@@ -202,10 +203,11 @@ PROPS = {
     },
     "C11": {
         "rules": [CO.r_collapse_push, only(L.r_reset, CS_ONLY), only(L.r_fresh, CS_ONLY), L.r_clone,
-                  only(SD.r_serde, CS_ONLY), L.r_reserve_only],
+                  only(SD.r_serde, CS_ONLY), L.r_reserve_only, CO.r_collapse_remembers],
         "explanation": "The collapse decision and the lifecycle of last_index are path properties of one small function and five lifecycle methods.",
         "decided": ["R-COLLAPSE: early return only on the equality-true edge against inner.index(last_index), writes nothing; otherwise one inner.push whose result is remembered and returned",
                     "last_index is None after default/merge_regions/clear, copied by clone/clone_from (R-CLONE for every region it can be nested in), serialised",
+                    "R-COLLAPSE (every writer): any method of CollapseSequence that stores an item in the inner region writes last_index on every path from that store to its return (batch hooks and helpers included)",
                     "R-RESERVE-ONLY: reserve paths only measure and reserve; in particular they do not forget the remembered last item (a reserve in the middle of a run of equal items would store the item again)"],
         "not_decided": ["properties of the user's PartialEq (NaN-like values)"],
     },
@@ -226,12 +228,13 @@ PROPS = {
     "C13": {
         "rules": [B.r_bound_readitems, B.r_index_failstop, B.r_bound_stride_sites, X.r_iter_readitems,
                   X.r_iter_positions, A.r_freeze, A.r_foreign_writers, X.r_exact_size, I.r_concat, I.r_stride_iter,
-                  BR.r_reader_writer, only(L.r_clone, DENSE_ONLY | INDEX_ONLY), only(L.r_reset, DENSE_ONLY), FW.r_skip_take, BR.r_bracket],
+                  BR.r_reader_writer, only(L.r_clone, DENSE_ONLY | INDEX_ONLY), only(L.r_reset, DENSE_ONLY), FW.r_skip_take, BR.r_bracket, L.r_reserve_only],
         "explanation": "Every positional access into shared storage must be dominated by a strict bound of the position against the item's own extent (the linear form len() returns).",
         "decided": ["R-BOUND for ReadSlice/ReadSliceInner/ReadColumns/ReadColumnsInner/FlatStack get", "len/is_empty agreement", "R-ITER: iteration covers start..end; every iterator method (next and specialisations) takes its positions from the underlying range iterator",
             "R-GUARD: the two-level offset containers that positional reads go through keep push order (the first level is written only while the second is empty), so position i of an item is never another item's element",
             "R-ITER (exact size): every local ExactSizeIterator impl is backed by a size_hint (or len) override taken from the underlying iterator; without one the provided len() panics on every call (found ReadSliceIter / ReadSliceIterInner, fixed in /repo eda620f)",
             "R-CONCAT / R-ITER: len, is_empty and iteration of the index containers behind FlatStack::get agree with index() (is_empty looks at both levels; StrideIter yields strided.index(cursor))",
+            "R-RESERVE-ONLY: reserve paths never shrink or replace a storage that holds items (columns dropped by a reserve leave rows whose len() exceeds what iteration and get() can reach)",
             "R-BRACKET: the (start, end) a push returns brackets its own appends in the target (a region-to-region copy that returns the *source's* start exposes the neighbours' elements); R-CLONE for the index containers the extents are stored in (stale offsets left behind by clone_from become the start bound of the next item)",
             "R-READER / R-CLONE / R-RESET for the dense-index regions: index(k) takes the item's extent from the offsets push stored for k, and every field that extent is computed from (cached offsets included) is copied by clone_from and reset by clear"],
         "not_decided": [COMMON_ND],
@@ -261,7 +264,7 @@ PROPS = {
         "decided": ["R-SERDE for every type with a derived Serialize",
                     "R-GUARD (foreign writers): code outside a two-level index container's own push (a hand-written deserialisation visitor, a bulk path) that appends to its first level in a loop which also appends to the second level must test that the second level is empty"],
         "not_decided": ["the data format; behaviour of the copy (follows from state equality + determinism)",
-                        "hand-written Serialize/Deserialize impls beyond that structural clause (their wire format is value-level)"],
+                        "hand-written Serialize/Deserialize impls beyond that structural clause (their wire format is value-level; seeded change C16_j1, a hand-written element-wise encoder of IndexOptimized that writes the saturated plateau as stride*count, is not detected)"],
         "assumptions": ["only meaningful in the serde feature configuration"],
     },
     "C17": {
